@@ -426,7 +426,26 @@ def check(run: Run) -> None:
                     return True
             if isinstance(e, ast.Name) and depth < 3:
                 defs = [a.value for a in walk_no_nested(fi.node) if isinstance(a, ast.Assign) and any(is_name(t, e.id) for t in a.targets)]
-                return bool(defs) and all(filter_result(d, depth + 1) for d in defs)
+                if bool(defs) and all(filter_result(d, depth + 1) for d in defs):
+                    return True
+                # a local list filled in a loop: starts empty, and every element put into it is a node of the input as it is, a
+                # copy made by one of the projector's own functions, or `replace(<node>, children=<filter result>)`
+                inits = [a.value for a in walk_no_nested(fi.node) if isinstance(a, (ast.Assign, ast.AnnAssign)) and a.value is not None and any(is_name(t, e.id) for t in (a.targets if isinstance(a, ast.Assign) else [a.target]))]
+                adds = [c for c in walk_no_nested(fi.node) if isinstance(c, ast.Call) and isinstance(c.func, ast.Attribute) and c.func.attr in ("append", "extend") and is_name(c.func.value, e.id) and len(c.args) == 1]
+                loop_vars = {x.id for lp in walk_no_nested(fi.node) if isinstance(lp, ast.For) for x in ast.walk(lp.target) if isinstance(x, ast.Name)}
+
+                def element_ok(a: ast.AST) -> bool:
+                    if isinstance(a, ast.Name) and a.id in loop_vars:
+                        return True
+                    if filter_result(a, depth + 1):
+                        return True
+                    if isinstance(a, ast.Call) and ast.unparse(a.func) in ("replace", "dataclasses.replace") and len(a.args) == 1 and isinstance(a.args[0], ast.Name) and a.args[0].id in loop_vars and {k.arg for k in a.keywords} <= {"children"} and all(filter_result(k.value, depth + 1) for k in a.keywords):
+                        return True
+                    return False
+
+                if inits and all(isinstance(i_, ast.List) and not i_.elts for i_ in inits) and adds and all(element_ok(c.args[0]) for c in adds):
+                    return True
+                return False
             return False
 
         returned = {r.value.id for r in walk_no_nested(fi.node) if isinstance(r, ast.Return) and isinstance(r.value, ast.Name)}
@@ -467,8 +486,20 @@ def check(run: Run) -> None:
                         ip = {a.arg for a in init.node.args.args}  # type: ignore[attr-defined]
                         good = any(isinstance(a, ast.Assign) and len(a.targets) == 1 and ast.unparse(a.targets[0]) == f"self.{c.attr}" and isinstance(a.value, ast.Call) and ast.unparse(a.value.func) in ("set", "frozenset") and len(a.value.args) == 1 and isinstance(a.value.args[0], ast.Name) and a.value.args[0].id in ip for a in walk_no_nested(init.node))
                 tests.append((fi, n, good))
-    ok = len(tests) == 1 and tests[0][2]
-    where = tests[0][0] if tests else pj.func("_filter_fields")
+    # no re-parenting: what a recursive filter call returns for a child's children goes back under THAT child
+    # (`replace(child, children=<result>)`) or is returned - it is never spliced into the list of the level above
+    for fi in pj.functions.values():
+        own = {f.name for f in pj.functions.values()}
+        loop_vars = {x.id for lp in walk_no_nested(fi.node) if isinstance(lp, ast.For) for x in ast.walk(lp.target) if isinstance(x, ast.Name)}
+        for c in walk_no_nested(fi.node):
+            if isinstance(c, ast.Call) and isinstance(c.func, ast.Attribute) and c.func.attr in ("extend", "__iadd__") and len(c.args) == 1:
+                a = c.args[0]
+                inner = a.args[0] if isinstance(a, ast.Call) and isinstance(a.func, ast.Name) and a.func.id in ("list", "tuple") and a.args else a
+                if isinstance(inner, ast.Call) and ((isinstance(inner.func, ast.Name) and inner.func.id in own) or (isinstance(inner.func, ast.Attribute) and inner.func.attr in own)) and inner.args and any(isinstance(x, ast.Name) and x.id in loop_vars for x in ast.walk(inner.args[0])):
+                    run.instance("R14.3", pj.loc(c), f"{fi.qualname}: `{norm(c)[:70]}` splices the filtered children of an element into the level above", ok=False)
+                    run.violation("R14.3", pj, fi.qualname, c, "what survives below a node that is not kept is spliced into its parent's list instead of staying under that node: kept fields change their place in the document (a projection may only remove)")
+    ok = len(tests) >= 1 and all(t[2] for t in tests)  # (the same test may be written at the top level and in the recursive step)
+    where = next((t[0] for t in tests if not t[2]), tests[0][0]) if tests else pj.func("_filter_fields")
     run.instance("R14.3", pj.loc(where.node), f"{where.qualname}: a node is kept when node.key is in the set made from the keep list ({len(tests)} membership test(s))", ok=ok)
     if not ok:
         run.violation("R14.3", pj, where.qualname, "node.key in keep_set", "the projector's keep test is no longer one membership test of the node's key in the set made from the caller's keep list")
